@@ -372,7 +372,7 @@ pub fn explore(cfg: &Cfg, mode: &ModeSpec, lname: &str, level: P, stream: &str, 
         observations: HashSet::new(),
     };
     let h2 = if cfg.traits_lane {
-        Some(mode.hasher())
+        Some(crate::lanes::traits_new(mode))
     } else if cfg.secret_lane {
         Some(mode2.hasher())
     } else {
@@ -591,10 +591,16 @@ pub fn replay(v: &Value) -> bool {
         "replay",
         "model_checking",
     );
-    let h2 = if cfg.traits_lane { Some(mode.hasher()) } else if cfg.secret_lane { Some(mode2.hasher()) } else { None };
+    let h2 = if cfg.traits_lane { Some(crate::lanes::traits_new(&mode)) } else if cfg.secret_lane { Some(mode2.hasher()) } else { None };
     let mut st = St { h: mode.hasher(), h2, c: 0, dev: 0, offset: 0, depth: 0, updates: 0, node: 0 };
     let mut found: Vec<(String, String, String)> = vec![];
+    if let Some(v) = check_state(&mut cx, &st, &mut rep) {
+        found.push(v);
+    }
     for op in ops {
+        if !found.is_empty() {
+            break;
+        }
         let prev = st.h.clone();
         if let Err(m) = apply(&mut st.h, op, cx.data, st.c) {
             found.push(("Hasher::op:panic".into(), "no panic".into(), format!("panic: {}", m)));
